@@ -22,7 +22,7 @@ ID = "C16"
 QUICK_N = 700
 THOROUGH_N = 7000
 SHARD = 60
-COQ_PRELUDE = "From MV Require Import Model.LeafCert Model.LeafCertSpec.\n"
+COQ_PRELUDE = "From MV Require Import Model.LeafCert Model.LeafCertSpec.\nFrom MV Require Model.LeafCertCtx.\n"
 TRANSLATORS = ["leafcert_const"]
 ALLOWED_AXIOMS = []
 RULE = ("issue (72%): SNI / local address / server address drawn from dictionaries of DNS names (multi-label, upper case, "
@@ -36,7 +36,10 @@ RULE = ("issue (72%): SNI / local address / server address drawn from dictionari
         "requested identity plus other identities derived from the certificate's own SANs (label under a wildcard, two "
         "labels, bare suffix, xn-- label, leading dot, case change, CN text, foreign name/IP) and verification times around "
         "both ends of the validity. pair (10%): two requests on one store (same names with different organization/CRL -> "
-        "cache hit). ip (12%): ipaddress.ip_address/str on token-built strings. idna (6%): ASCII fast path of the idna codec. "
+        "cache hit). reload (6%): histories on one confdir with a custom CA chain -- CA file rewritten in place (4 intermediates "
+        "under one root), store reloaded by confdir/key_size/cert_passphrase/certs updates (sometimes not), handshakes with 3 cipher "
+        "settings; the chain the client RECEIVES is verified strictly against the root. ip (8%): ipaddress.ip_address/str on "
+        "token-built strings. idna (4%): ASCII fast path of the idna codec. "
         "Non-trivial = a certificate was issued and at least one verdict is negative and one positive, or an error path, or an "
         "IP string that parses; distinct by canonical JSON.")
 TRUSTED = ["Coq 8.16.1 kernel (coqc), vm_compute for case evaluation",
@@ -163,6 +166,27 @@ def _ip_case(rng):
     return {"k": "ip", "s": s}
 
 
+RELOAD_VIA = ["confdir", "key_size", "cert_passphrase", "certs"]
+
+
+def _reload_case(rng):
+    """a history on one confdir with a custom CA chain: the CA file is rewritten in place (one of 4 intermediates under
+    one root), the store is reloaded by an options update, clients connect with 3 different context settings"""
+    ops = [["rewrite", rng.randint(1, 4)], ["reload", "confdir"]]
+    for _ in range(rng.randint(3, 8)):
+        r = rng.random()
+        if r < 0.5:
+            ops.append(["hs", rng.below(3)])
+        elif r < 0.85:
+            ops += [["rewrite", rng.randint(1, 4)], ["reload", rng.choice(RELOAD_VIA)]]
+        elif r < 0.92:
+            ops.append(["rewrite", rng.randint(1, 4)])          # no reload: the store keeps the old CA
+        else:
+            ops.append(["reload", rng.choice(RELOAD_VIA)])
+    ops.append(["hs", rng.below(3)])
+    return {"k": "reload", "ops": ops}
+
+
 def gen(rng, n, tier):
     out = []
     for _ in range(n):
@@ -189,7 +213,9 @@ def gen(rng, n, tier):
                 r2 = _req(rng, adv)
             out.append({"k": "pair", "ca": rng.weighted([(5, 0), (3, 1), (2, 2)]), "tz": rng.choice([0, -12, 14, 3]),
                         "r1": r1, "r2": r2})
-        elif r < 0.94:
+        elif r < 0.88:
+            out.append(_reload_case(rng))
+        elif r < 0.96:
             out.append(_ip_case(rng))
         else:
             labs = [rng.choice(["a", "", "x" * 63, "x" * 64, "b-c", "*", "xn--a", " ", "\n", "x" * 62]) for _ in range(rng.randint(1, 4))]
@@ -252,6 +278,152 @@ def _mk_ca_files(td, kind):
     return anchor.public_bytes(serialization.Encoding.PEM)
 
 
+def _mk_rotation_pool(root_dir):
+    """one root, 4 intermediates (own keys); a TlsConfig whose confdir is switched per reload case.  Entered after the
+    other taddons contexts: TlsConfig.configure reads the GLOBAL mitmproxy.ctx.options, which is the last one entered."""
+    from cryptography import x509
+    from cryptography.hazmat.primitives import hashes, serialization
+    from cryptography.hazmat.primitives.asymmetric import rsa
+    from cryptography.x509.oid import NameOID
+    from mitmproxy.addons import tlsconfig
+    from mitmproxy.test import taddons
+    now = datetime.datetime.utcnow().replace(microsecond=0)
+    ku = x509.KeyUsage(False, False, False, False, False, True, True, False, False)
+
+    def name(cn):
+        return x509.Name([x509.NameAttribute(NameOID.COMMON_NAME, cn), x509.NameAttribute(NameOID.ORGANIZATION_NAME, "C16")])
+
+    def mk(cn, issuer, issuer_key, pathlen):
+        k = rsa.generate_private_key(65537, 2048)
+        b = (x509.CertificateBuilder().subject_name(name(cn)).issuer_name(issuer.subject if issuer else name(cn))
+             .public_key(k.public_key()).serial_number(x509.random_serial_number())
+             .not_valid_before(now - datetime.timedelta(days=30)).not_valid_after(now + datetime.timedelta(days=3000))
+             .add_extension(x509.BasicConstraints(True, pathlen), True).add_extension(ku, True)
+             .add_extension(x509.SubjectKeyIdentifier.from_public_key(k.public_key()), False))
+        if issuer is not None:
+            b = b.add_extension(x509.AuthorityKeyIdentifier.from_issuer_public_key(issuer_key.public_key()), False)
+        return k, b.sign(issuer_key or k, hashes.SHA256())
+    rk, rootc = mk("C16 rotation root", None, None, None)
+    inters, pems = [], []
+    for i in range(4):
+        ik, ic = mk(f"C16 rotation intermediate {i + 1}", rootc, rk, 0)
+        inters.append(ic)
+        pems.append(ik.private_bytes(serialization.Encoding.PEM, serialization.PrivateFormat.TraditionalOpenSSL,
+                                     serialization.NoEncryption())
+                    + ic.public_bytes(serialization.Encoding.PEM) + rootc.public_bytes(serialization.Encoding.PEM))
+    ta = tlsconfig.TlsConfig()
+    tctx = taddons.context(ta)
+    tctx.__enter__()
+    return {"root": rootc, "inters": inters, "pems": pems, "ta": ta, "tctx": tctx, "dir": os.path.join(root_dir, "rot"), "n": 0}
+
+
+ROT_CIPHERS = [None, ["ECDHE-RSA-AES128-GCM-SHA256"], ["ECDHE-RSA-AES256-GCM-SHA384", "ECDHE-RSA-AES128-GCM-SHA256"]]
+
+
+def _rot_handshake(rot, settings):
+    """in-memory handshake against the real tls_start_client; returns the chain the client received"""
+    SSL, connection, context = S["SSL"], S["connection"], S["context"]
+    c = context.Context(connection.Client(peername=("192.0.2.1", 1234), sockname=("127.0.0.1", 8080), timestamp_start=0),
+                        rot["tctx"].options)
+    c.client.sni = "example.test"
+    c.server.address = ("example.test", 443)
+    if ROT_CIPHERS[settings]:
+        c.client.cipher_list = list(ROT_CIPHERS[settings])
+    td = S["tls"].TlsData(c.client, c)
+    rot["ta"].tls_start_client(td)
+    server = td.ssl_conn
+    server.set_accept_state()
+    cctx = SSL.Context(SSL.TLS_CLIENT_METHOD)
+    cctx.set_verify(SSL.VERIFY_NONE, None)        # the presented chain is verified separately, strictly
+    cl = SSL.Connection(cctx)
+    cl.set_tlsext_host_name(b"example.test")
+    cl.set_connect_state()
+
+    def move(src, dst):
+        try:
+            dst.bio_write(src.bio_read(1 << 16))
+        except SSL.WantReadError:
+            pass
+    dc = ds = False
+    for _ in range(20):
+        if not dc:
+            try:
+                cl.do_handshake()
+                dc = True
+            except SSL.WantReadError:
+                pass
+        move(cl, server)
+        if not ds:
+            try:
+                server.do_handshake()
+                ds = True
+            except SSL.WantReadError:
+                pass
+        move(server, cl)
+        if dc and ds:
+            break
+    if not (dc and ds):
+        raise RuntimeError("handshake did not complete")
+    return [x.to_cryptography() for x in cl.get_peer_cert_chain()]
+
+
+def _rot_verify(rot, chain):
+    """strict verification of what was presented, trusting only the configured root"""
+    x509, crypto = S["x509"], S["crypto"]
+    from cryptography.x509.verification import PolicyBuilder, Store, VerificationError
+    out = {}
+    try:
+        PolicyBuilder().store(Store([rot["root"]])).build_server_verifier(x509.DNSName("example.test")).verify(chain[0], chain[1:])
+        out["rust"] = "ok"
+    except VerificationError as e:
+        out["rust"] = "fail:" + str(e)[:70]
+    st = crypto.X509Store()
+    st.add_cert(crypto.X509.from_cryptography(rot["root"]))
+    st.set_flags(crypto.X509StoreFlags.X509_STRICT)
+    try:
+        crypto.X509StoreContext(st, crypto.X509.from_cryptography(chain[0]),
+                                chain=[crypto.X509.from_cryptography(x) for x in chain[1:]] or None).verify_certificate()
+        out["ossl"] = "ok"
+    except crypto.X509StoreContextError as e:
+        out["ossl"] = "fail:" + str(e)[:70]
+    return out
+
+
+def _run_reload(case):
+    rot = S["rot"]
+    rot["n"] += 1
+    d = os.path.join(rot["dir"], str(rot["n"]))          # a new confdir per case: the context cache starts without its path
+    os.makedirs(d)
+    with open(os.path.join(d, "mitmproxy-dhparam.pem"), "wb") as f:
+        f.write(S["certs"].DEFAULT_DHPARAM)
+    shown = []
+    for op, arg in case["ops"]:
+        if op == "rewrite":
+            with open(os.path.join(d, "mitmproxy-ca.pem"), "wb") as f:
+                f.write(rot["pems"][arg - 1])
+        elif op == "reload":
+            kw = {"confdir": d} if arg == "confdir" else {"key_size": 2048} if arg == "key_size" else \
+                {"cert_passphrase": None} if arg == "cert_passphrase" else {"certs": []}
+            rot["tctx"].configure(rot["ta"], **kw)
+        else:
+            chain = _rot_handshake(rot, arg)
+            leaf = chain[0]
+            issuer = 0
+            for i, ic in enumerate(rot["inters"]):
+                if leaf.issuer == ic.subject:
+                    try:
+                        leaf.verify_directly_issued_by(ic)
+                        issuer = i + 1
+                    except Exception:
+                        pass
+            loaded = rot["ta"].certstore.default_ca.to_cryptography()
+            shown.append({"issuer": issuer, "complete": issuer > 0 and rot["inters"][issuer - 1] in chain[1:],
+                          "issuer_is_store_ca": issuer > 0 and loaded == rot["inters"][issuer - 1],
+                          "n_presented": len(chain), "verify": _rot_verify(rot, chain)})
+    shutil.rmtree(d, True)
+    return {"shown": shown}
+
+
 def setup_impl():
     import ssl
     import warnings
@@ -294,6 +466,7 @@ def setup_impl():
                      "serial": ca.serial_number}})
     S["upkey"] = ec.generate_private_key(ec.SECP256R1())
     S["upcache"] = {}
+    S["rot"] = _mk_rotation_pool(root)
     real_dt = datetime
 
     class _Shim:
@@ -718,6 +891,8 @@ def run_impl(case):
         return {"ip": [ip.packed.hex(), getattr(ip, "scope_id", None), str(ip)]}
     if k == "idna":
         return {"idna": _idna(case["s"])}
+    if k == "reload":
+        return _run_reload(case)
     cfg = S["cas"][case["ca"]]
     certs = S["certs"]
     cfg["ta"].certstore = certs.CertStore(*cfg["store_args"])      # fresh store, same CA
@@ -824,6 +999,11 @@ def coq_case(case, obs):
         return f"Ip {_b(case['s'])} {t}"
     if k == "idna":
         return f"Idna {_b(case['s'])} {_ob(obs['idna'])}"
+    if k == "reload":
+        ops = [f"(LeafCertCtx.Rewrite {cN(a)})" if o == "rewrite" else "LeafCertCtx.Reload" if o == "reload"
+               else f"(LeafCertCtx.Handshake {cN(a)})" for o, a in case["ops"]]
+        return (f"Ctx {clist(ops, 'LeafCertCtx.op')} "
+                f"{clist([f'({cN(x['issuer'])}, {cbool(x['complete'])})' for x in obs['shown']], '(N * bool)')}")
     d = S["cas"][case["ca"]]["desc"]
     if k == "pair":
         o1, o2 = obs["o1"], obs["o2"]
@@ -958,10 +1138,42 @@ def _oracle_issue(case, o, obs, requested_checks):
     return v
 
 
+def _oracle_reload(case, obs):
+    """every handshake must present a chain that verifies strictly against the configured root, with a leaf issued by
+    the CA of the currently loaded store; bookkeeping of the inputs only (which chain is in the file / was loaded)"""
+    v = []
+    file = loaded = 0
+    late = False            # a client connected while the file was ahead of the store (documented precondition broken)
+    it = iter(obs["shown"])
+    for op, arg in case["ops"]:
+        if op == "rewrite":
+            file = arg
+        elif op == "reload":
+            loaded = file
+        else:
+            x = next(it)
+            if file != loaded:
+                late = True
+            bad = [f"{w}:{r}" for w, r in sorted(x["verify"].items()) if r != "ok"]
+            if not x["issuer_is_store_ca"] or x["issuer"] != loaded:
+                v.append({"key": "leaf-not-from-current-ca",
+                          "what": f"history {case['ops']!r}: leaf issued by intermediate {x['issuer']}, store loaded {loaded}"})
+            elif bad:
+                key = "chain-file-read-late" if late else "stale-chain-after-reload"
+                v.append({"key": key,
+                          "what": f"history {case['ops']!r}: the handshake after CA chain {loaded} was loaded presents {x['n_presented']} "
+                                  f"certificate(s) without the issuing intermediate; strict verification against the root: {bad!r}"})
+            if v:
+                break
+    return v
+
+
 def oracle(case, obs):
     k = case["k"]
     if k in ("ip", "idna"):
         return []
+    if k == "reload":
+        return _oracle_reload(case, obs)
     if k == "pair":
         v = _oracle_issue(case["r1"] | {"ca": case["ca"], "tz": case["tz"]}, obs["o1"], obs, False)
         if obs["o2"] is not None:
@@ -981,6 +1193,8 @@ def nontrivial(case, obs):
         return obs["ip"] is not None
     if k == "idna":
         return "." in case["s"]
+    if k == "reload":
+        return len({x["issuer"] for x in obs["shown"]}) > 1
     if k == "pair":
         return obs["o2"] is not None
     if "err" in obs["o"]:
@@ -995,6 +1209,10 @@ def classify(case, obs):
         return ["ip", "ip-ok" if obs["ip"] else "ip-reject"]
     if k == "idna":
         return ["idna", "idna-ok" if obs["idna"] is not None else "idna-reject"]
+    if k == "reload":
+        return ["reload", f"reload-cas={len({x['issuer'] for x in obs['shown']})}",
+                "reload-all-complete" if all(x["complete"] for x in obs["shown"]) else "reload-incomplete-chain",
+                f"reload-handshakes={min(len(obs['shown']), 6)}"]
     if k == "pair":
         return ["pair", "pair-cache-hit" if obs["same"] else "pair-miss"]
     o = obs["o"]
